@@ -1256,6 +1256,9 @@ impl ParserListener for Screen {
                             if let (Some(r), Some(g), Some(b)) =
                                 (attrs_list.pop(), attrs_list.pop(), attrs_list.pop())
                             {
+                                if r > 255 || g > 255 || b > 255 {
+                                    continue; // out-of-range components: ignore the colour
+                                }
                                 replace.insert(
                                     key.to_string(),
                                     format!("{:02x}{:02x}{:02x}", r, g, b),
